@@ -556,6 +556,10 @@ func (ex *exprTr) call(x *ast.CallExpr) Val {
 		if id, ok := c.Fun.(*ast.Ident); ok {
 			fo, _ = ex.info.Uses[id].(*types.Func)
 		}
+		if sel, ok := c.Fun.(*ast.SelectorExpr); ok {
+			// a recursive spec function of another package (pkg.F)
+			fo, _ = ex.info.Uses[sel.Sel].(*types.Func)
+		}
 		if fo == nil {
 			vc.fail("contract: unfold needs a call of a recursive spec function")
 		}
